@@ -307,7 +307,7 @@ def finish(ctx, level="model_checking", rule="", assumptions=(), trusted=(), exh
 
 def standard_pipeline(ctx, *, sub, mc=(), gen=(), trace, random_n=0, random_extra=(), jobs=12, fresh=False,
                       timeout_ms=10000, nontrivial=None, dedupe_key=None, post_gen=None, trace_env=None,
-                      trace_heap="4g", trace_timeout=1800, chunk=60000):
+                      trace_heap="4g", trace_timeout=1800, chunk=60000, random_filter=None):
     """The pipeline shared by most properties (DESIGN §2):
       mc:    [(module, cfg, kwargs)]  exhaustive model checking of the design (layers a+b); must hold
       gen:   [(module, cfg, kwargs)]  TLC prints scenarios (one JSON record each, PrintT(ToJson(..)))
@@ -340,7 +340,8 @@ def standard_pipeline(ctx, *, sub, mc=(), gen=(), trace, random_n=0, random_extr
         ctx.vh_gen(sub, rp, random_n, random_extra)
         for l in open(rp):
             d = json.loads(l); d["random"] = 1
-            scns.append(d)
+            if random_filter is None or random_filter(d):
+                scns.append(d)
     for n, d in enumerate(scns):
         d["id"] = n
     inp = ctx.write_ndjson("scenarios.ndjson", scns)
